@@ -39,8 +39,8 @@ type mutant struct {
 	Old    string       `json:"old"`
 	New    string       `json:"new"`
 	Edits  []mutantEdit `json:"edits,omitempty"` // multi-hunk / multi-file mutants (seeded changes)
-	Expect []string `json:"expect"` // rule ids (prefix match) one of which must report a violation
-	Note   string   `json:"note,omitempty"`
+	Expect []string     `json:"expect"`          // rule ids (prefix match) one of which must report a violation
+	Note   string       `json:"note,omitempty"`
 }
 
 type mutantResult struct {
